@@ -17,14 +17,37 @@ pub const SHIFTS: [f64; 9] = [-24.0, -12.0, -1.0, -0.5, 0.0, 0.5, 1.0, 12.0, 24.
 
 pub fn run(tier: Tier) -> i32 {
     let rep = Report::new("C15", tier, "model_checking");
-    rep.set_rule("SCOPE: shifts {-24,-12,-1,-0.5,0,0.5,1,12,24} half tones x voices (V0, P1..P3 with GV on; generated 2-/3-stream voices with GV off) x (short utterances + corpus windows of 8) x (default + every single further deviation on the short set); trajectories through hook 1; oracle: same frame count and voiced pattern, lf0 shift = h ln2/12 (1e-9) on every voiced frame when no voiced state's mean reaches the 20 Hz..20 kHz clamp, spectrum and low-pass trajectories bit-identical, h=0 bit-identical to never calling the setter; distinct = (voice, other deviation, utterance, h); non-trivial = h != 0 and at least one voiced frame");
-    rep.assume("shift lattice only; when some voiced state's shifted mean is clamped only the pattern/length/other-stream clauses are asserted");
+    rep.set_rule("SCOPE: shifts {-24,-12,-1,-0.5,0,0.5,1,12,24} half tones x voices (V0, P1..P3 with GV on; generated 2-/3-stream voices with GV off) x (short utterances + corpus windows of 8 + windows around the lowest/highest-pitched voiced states) x (default + every single further deviation on the short set); trajectories through hook 1; oracle: same frame count and voiced pattern, lf0 shift = h ln2/12 (1e-9) on every voiced frame when no voiced state's mean reaches the 20 Hz..20 kHz clamp, spectrum and low-pass trajectories bit-identical, h=0 bit-identical to never calling the setter; distinct = (voice, other deviation, utterance, h); non-trivial = h != 0 and at least one voiced frame");
+    rep.assume("shift lattice only; when some voiced state's shifted mean reaches the limit the expected trajectory is generated from the limited means through the public MlpgAdjust (itself checked by C05/C12)");
     let corpus = labels::corpus();
     let mut utts: Vec<Vec<String>> = vec![vec![corpus[41].clone()], corpus[40..43].to_vec()];
     let n_short = utts.len();
     let stride = tier.pick(31usize, 3usize);
     for s in ((seed() as usize % stride)..corpus.len() - 8).step_by(stride) {
         utts.push(corpus[s..s + 8].to_vec());
+    }
+    // utterances that reach the limit: corpus windows containing the lowest- and highest-pitched voiced states of V0
+    {
+        let e = engine_pk(&[0]);
+        let mut scored: Vec<(f64, usize)> = Vec::new();
+        for (i, l) in corpus.iter().enumerate() {
+            let lab = [labels::parse(l)];
+            let models = Models::new(&lab, &e.voices, e.condition.get_interporation_weight());
+            for (p, msd) in models.model_stream(1).stream.iter() {
+                if *msd > 0.5 {
+                    scored.push((p[0].0, i));
+                }
+            }
+        }
+        scored.sort_by(|a, b| a.0.partial_cmp(&b.0).unwrap());
+        let mut picks: Vec<usize> = scored.iter().take(tier.pick(3, 10)).map(|x| x.1).collect();
+        picks.extend(scored.iter().rev().take(tier.pick(1, 4)).map(|x| x.1));
+        picks.sort();
+        picks.dedup();
+        for i in picks {
+            let a = i.saturating_sub(2).min(corpus.len() - 5);
+            utts.push(corpus[a..a + 5].to_vec());
+        }
     }
     let mut voices: Vec<(String, jbonsai::Engine, usize, bool)> = Vec::new();
     for k in 0..tier.pick(2, 4) {
@@ -115,6 +138,27 @@ pub fn run(tier: Tier) -> i32 {
             });
             if clamped {
                 clamped_cases.fetch_add(1, Ordering::Relaxed);
+                // "until the 20 Hz..20 kHz limit is reached": the trajectory must be the one generated from the
+                // states' means shifted and limited to the range (built here from the public model and MLPG API)
+                let mut ms = models.model_stream(1);
+                let shifted: Vec<(Vec<jbonsai::model::MeanVari>, f64)> = ms
+                    .stream
+                    .iter()
+                    .map(|(p, msd)| {
+                        let mut p = p.clone();
+                        p[0].0 = (p[0].0 + h * HALF_TONE).clamp(MIN_LF0, MAX_LF0);
+                        (p, *msd)
+                    })
+                    .collect();
+                ms.stream = jbonsai::model::StreamParameter::new(shifted);
+                let est = jbonsai::duration::DurationEstimator::new(models.duration(), models.nstate());
+                let d = if e.condition.get_phoneme_alignment_flag() { continue } else { est.create(e.condition.get_speed()) };
+                let want = jbonsai::mlpg_adjust::MlpgAdjust::new(e.condition.get_gv_weight(1), e.condition.get_msd_threshold(1), ms).create(&d);
+                rep.cmp(1);
+                let ok = want.len() == t.1.len() && want.iter().zip(&t.1).all(|(a, b)| (a[0] == NODATA && b[0] == NODATA) || (a[0] - b[0]).abs() <= 1e-9);
+                if !ok {
+                    rep.violation("clamp", format!("h={}: a voiced state's shifted mean reaches the 20 Hz..20 kHz limit, and the log-F0 trajectory is not the one generated from the limited means", h), rp.clone());
+                }
                 continue;
             }
             let want = h * HALF_TONE;
@@ -140,5 +184,6 @@ pub fn run(tier: Tier) -> i32 {
     rep.sample(json!({"voice": "V0", "other_condition": [], "labels": utts[0], "half_tone": -24.0}));
     rep.sample_last(json!({"voice": voices.last().unwrap().0, "labels": utts.last().unwrap(), "half_tone": 24.0}));
     rep.guard(nontriv.load(Ordering::Relaxed) > 100, "too few voiced non-zero-shift cases");
+    rep.guard(clamped_cases.load(Ordering::Relaxed) > 0, "no case reaches the 20 Hz..20 kHz limit");
     rep.finish()
 }
